@@ -11,11 +11,19 @@ compared by the checks of C03 C12 C14 C15 C16 C17 C18 C19; for the entry points 
 drives — Content-Disposition, Header, UrlPath, legacy readers — the full result line is compared).
 Oracle on the implementation alone: any `panic`, `abort` (stack overflow kills the process) or
 `hang` (no answer within the watchdog time) is a violation, signature `panic:<site>` /
-`abort:<entry>` / `hang:<entry>`."""
+`abort:<entry>` / `hang:<entry>`.
+
+Generator audit (vlib/gen_c20.py, audit/C20/AUDIT.md): on top of the random mutations every small valid document is mutated
+EXHAUSTIVELY in one step (every prefix, suffix, single-byte deletion, delimiter doubled / exchanged, a multi-byte character at every
+position, every line-end style), every format has a list of hand-enumerated boundary documents (values that are exactly one
+delimiter, bodies of 0..3 bytes, every row of the method / version / status / configuration-key tables read from the source, ...),
+and the ops with two inputs are driven over the RELATION of the two (file length x range, body x boundary, path x pattern,
+parameter map x pattern).  All typed array readers, the Range header reader, get_uri_path and percent_decode are entry points too."""
 import os
 from vlib import limits as LIM
 from vlib import common as C
 from props import c19 as J
+from vlib import gen_c20 as G
 
 TRUSTED = ['Rust std as modelled in the component models (from_utf8, trim/White_Space, split, read_until, integer parsing, char::is_control)',
            'harness op `w`: worker-like thread (thread::Builder, name, default stack size) + watchdog',
@@ -65,8 +73,9 @@ CTS = [b'multipart/form-data; boundary=abc', b'multipart/form-data; boundary="q-
 # (entry, format name, builder: bytes -> protocol line (without the `w `), valid documents, delimiters of the format, is_text)
 def one(op): return lambda b: f'{op} {hx(b)}'
 ENTRIES = []
-def entry(name, fmt, build, docs, delims, text=False, full=False):
-    ENTRIES.append(dict(name=name, fmt=fmt, build=build, docs=docs, delims=delims, text=text, full=full))
+def entry(name, fmt, build, docs, delims, text=False, full=False, scale=1.0):
+    # scale: share of the per-entry budget of random mutations (the readers that differ from a fully driven one only in a type get less)
+    ENTRIES.append(dict(name=name, fmt=fmt, build=build, docs=docs, delims=delims, text=text, full=full, scale=scale))
 
 entry('Request::parse', 'request', one('reqparse'), REQS, b'\r\n: /')
 entry('Request::parse_method_and_request_uri_and_http_version_string', 'request', one('reqline'), REQLINES, b' /\r\n', text=True)
@@ -83,6 +92,8 @@ entry('Range::_parse_content_range_header_value', 'content-range', one('respcr')
 entry('Range::_parse_raw_content_range_header_value', 'content-range', one('crraw'), CRS, b' -/', text=True, full=True)
 entry('Range::_convert_bytes_array_to_string', 'utf-8', one('rconv_'), ['aé€😀z'.encode(), 'Content-Range: bytes 0-1/2 ü'.encode(), b'\xed\x9f\xbf\xee\x80\x80\xf4\x8f\xbf\xbf\xe0\xa0\x80\xf0\x90\x80\x80'], b'\xc2\xe0\xed\xf0\xf4\x80\xa0\xbf\xc0\xf5\xff', full=True)
 entry('Range::parse_range_in_content_range', 'range', lambda b: f'rangeparse 10 {hx(b)}', RANGES, b'- ,=', text=True)
+# the Range header value (unit, `=`, comma separated specs) against a file of ten bytes in the private directory of the harness
+entry('Range::parse_content_range', 'range', lambda b: f'rangehdr {hx(b"0123456789")} 10 {hx(b)}', RANGEHDRS, b'- ,=', text=True, scale=0.5)
 entry('FormMultipartData::parse', 'multipart', lambda b: f'mpparse {hx(b)} {hx(FORM_B)}', FORMS, b'\r\n-:;="')
 entry('FormMultipartData::parse(boundary)', 'multipart', lambda b: f'mpparse {hx(FORMS[0])} {hx(b)}', [FORM_B, b'x', b'----WebKitFormBoundary7MA4YWxk'], b'-', text=True)
 entry('FormMultipartData::extract_boundary', 'content-type', one('mpboundary'), CTS, b';="', text=True)
@@ -95,6 +106,8 @@ entry('JSONProperty::parse', 'json', one('jprop'), JPROP, b'{}[]",: \\-.', text=
 entry('RawUnprocessedJSONArray::split_into_vector_of_strings', 'json', one('jsplit'), JARR, b'{}[]",: \\-.', text=True)
 for _t in ('i128', 'i8', 'u64', 'u8', 'bool', 'string', 'null', 'f64', 'f32'):
     entry(f'JSONArrayOf*::parse_as_list_{_t}', 'json', one('jlist_' + _t), JARR, b'{}[]",: \\-.', text=True)
+for _t in ('i64', 'i32', 'i16', 'u128', 'u32', 'u16'):      # every typed reader is an entry point of its own (a copy of the same loop)
+    entry(f'JSONArrayOf*::parse_as_list_{_t}', 'json', one('jlist_' + _t), JARR, b'{}[]",: \\-.', text=True, scale=0.25)
 entry('read_config_file', 'config', one('cfgfileb'), CONFIGS, b'=[]#"\' \t\r\n_', full=True)
 entry('UrlPath::extract_parts_from_pattern', 'url-path', one('uppattern'), PATTERNS, b'[]/', text=True, full=True)
 entry('UrlPath::is_matching(pattern)', 'url-path', lambda b: f'upmatch {hx(PATHS[1])} {hx(b)}', PATTERNS, b'[]/', text=True, full=True)
@@ -132,6 +145,8 @@ entry('UrlPath::build', 'url-path', lambda b: f'upbuild {hx("id")}:{hx("7")},{hx
 entry('URL::parse', 'url', one('urlparse'), URLS, b':/?#@&=[]', text=True)
 entry('URL::parse_query', 'query', one('qparse'), QUERIES, b'&=%+', text=True)
 entry('Request::get_uri_query', 'url', one('requery'), [b'/p?a=b&c=d', b'/form-get-method?k=v#f', b'/'], b'/?#&=%', text=True)
+entry('Request::get_uri_path', 'url', one('repath'), [b'/p?a=b&c=d', b'/form-get-method?k=v#f', b'/', b'/a/b/c.html'], b'/?#&=%:@', text=True, scale=0.5)
+entry('URL::percent_decode', 'query', one('qdec'), QUERIES + [b'%E2%82%AC', b'a+b%20c'], b'&=%+', text=True, scale=0.5)
 
 NONASCII = ['é', 'ß', 'Ł', 'я', '€', '漢', '\U0001F600', ' ', ' ', '　', '\u0085', 'ſ', 'K']
 BADBYTES = [0x80, 0xBF, 0xC0, 0xC3, 0xE2, 0xED, 0xF0, 0xF5, 0xFF, 0x00, 0x7F, 0x0B, 0x1F]
@@ -226,17 +241,22 @@ def norm_full(out):
 def run(res, tier, seed):
     rng = C.Rng(seed)
     quick = tier == 'quick'
-    per_entry = 2000 if quick else 100000
+    per_entry_full = per_entry = 2000 if quick else 100000
     lines, meta = [], []     # meta: (entry index, kind)
     nomodel = set()
+    seen = set()
     def add(i, kind, b, nomodel_=False, **kw):
         e = ENTRIES[i]
+        ln = e['build'](b)
+        if ln in seen: return          # the systematic families overlap with the random ones
+        seen.add(ln)
         if kw.get('nomodel') or nomodel_: nomodel.add(len(lines))
-        lines.append(e['build'](b)); meta.append((i, kind))
+        lines.append(ln); meta.append((i, kind))
     for i, e in enumerate(ENTRIES):
         r = rng.fork(e['name'])
         n0 = len(lines)
         docs = e['docs']
+        per_entry = max(200, int(per_entry_full * e['scale']))
         for d in docs: add(i, 'valid', d)
         small = sorted(docs, key=len)[:4 if quick else len(docs)]
         # truncation at EVERY position of a few small valid documents (all of them in the thorough tier)
@@ -245,6 +265,23 @@ def run(res, tier, seed):
             budget = max(20, (per_entry // 2) // len(docs) - (len(d) if every else 8))
             for kind, m in mutations(r, d, e['delims'], budget, every, e['text']):
                 add(i, kind, m)
+        # generator audit (audit/C20): exhaustive one-step mutations of every SMALL valid document (not only of the four shortest), every
+        # line-end style of every document, and the hand-enumerated boundary documents of the format (vlib/gen_c20.py)
+        for d in docs:
+            for kind, m in G.systematic(d, e['delims'], e['text'], 64 if quick else 400): add(i, kind, m)
+            for kind, m in G.line_ends(d): add(i, kind, m)
+        bdocs = G.docs_for(e['name'], e['fmt'])
+        for kind, m in bdocs: add(i, kind, m)
+        if not quick:
+            for _, d in bdocs:
+                for kind, m in G.systematic(d, e['delims'], e['text'], 48): add(i, kind + ' of a boundary document', m)
+                for kind, m in G.line_ends(d): add(i, kind + ' of a boundary document', m)
+        if bdocs:
+            for _ in range(per_entry // 8):
+                d = r.choice(bdocs)[1]
+                if len(d) > 2000: continue
+                ms = mutations(r, d, e['delims'], 1, False, e['text'])
+                add(i, 'mutated boundary document', ms[-1][1])
         # every number of a valid document at and around every machine-integer limit (a length that sizes an allocation, a bound that is added to)
         for d in docs[:3 if quick else len(docs)]:
             subs = LIM.substitute(d)
@@ -291,6 +328,14 @@ def run(res, tier, seed):
         ('respparse_ ' + hx(b'HTTP/1.1 200 OK\r\n' + b'a: b\r\n' * 20000 + b'Content-Type: text/plain\r\n\r\nxyz'), 'ok', 'F69'),
         ('cfgfileb ' + hx(b'port = 1\n\xff\n'), 'err', 'F70'), ('rconv_ ff', 'ok', 'F73'), ('cfgfileb ' + hx(b'port = "1\x00"\n'), 'err', 'F72'), ('cfgfileb ' + hx(b'ip = 1\n[a\x00]\nb = 2\n'), 'err', 'F72'), ('rconv_ e28241f09f98', 'ok', 'F73'),
     ]
+    # generator audit: the ops with more than one input - relations between the inputs (file length x range, body x boundary, path x pattern, map x pattern)
+    by_name = {e['name']: k for k, e in enumerate(ENTRIES)}
+    raw_full = set()
+    for name, kind, ln, full in G.raw_lines(rng.fork('raw'), quick):
+        if ln in seen: continue
+        seen.add(ln)
+        if full: raw_full.add(len(lines))
+        lines.append(ln); meta.append((by_name[name], kind))
     nreg0 = len(lines)
     for ln, _, _ in regress:
         if ln.startswith('respparse ') and len(ln) > 100000: nomodel.add(len(lines))     # model of C15 is quadratic in lines / parts
@@ -308,16 +353,20 @@ def run(res, tier, seed):
     t2 = threading.Thread(target=lambda: out.__setitem__('m', C.run_model([lines[k] for k in model_idx])))
     t1.start(); t2.start(); t1.join(); t2.join()
     impl = out['i']
+    try:
+        from props import c03 as _c03      # the private directory the `rangehdr` op of the harness works in
+        _c03._cleanup()
+    except Exception: pass
     model = [None] * len(lines)
     for k, b in zip(model_idx, out['m']): model[k] = b
 
     # correspondence: outcome class everywhere, the full line for the entry points only this slice drives
     cl, ci, cm = [], [], []
-    for ln, (i, kind), a, b in zip(lines, meta, impl, model):
+    for k, (ln, (i, kind), a, b) in enumerate(zip(lines, meta, impl, model)):
         if b is None:
             res.evaluations += 1      # judged by the oracle below, not compared
             continue
-        full = (i is None) or ENTRIES[i]['full']
+        full = (i is None) or ENTRIES[i]['full'] or k in raw_full
         cl.append(ln); ci.append(a if full else cls(a)); cm.append(b if full else cls(b))
     C.compare(res, cl, ci, cm, 'parser outcome class', nontrivial=lambda ln, a: not a.startswith('badutf8'))
     res.notes.append(f'{len(nomodel)} full-size long/deep inputs of {sorted(SLOW_MODEL)} were judged on the implementation only (model quadratic); reduced copies compared on both sides')
@@ -344,7 +393,9 @@ def run(res, tier, seed):
     n_entries = len(ENTRIES)
     res.rule = (f'{n_entries} entry points; per entry point: every valid document, truncation at every position of the small documents, '
                 'bit flips, non-ASCII scalars (White_Space ones included), non-UTF-8 and control bytes, duplicated / inserted / deleted delimiters, '
-                'deletions, duplicated tails, swapped pieces, 2-4 stacked mutations, random bytes and random text over the alphabet of the format '
+                'deletions, duplicated tails, swapped pieces, 2-4 stacked mutations, random bytes and random text over the alphabet of the format, '
+                'exhaustive one-step mutations and line-end styles of the small documents, hand-enumerated boundary documents per format with the rows of the '
+                'tables of the source, two-input relations (file length x range, body x boundary, path x pattern, map x pattern) '
                 f'(~{per_entry} inputs per entry point), plus very long lines (100 KB) and 12 000-50 000 repeated units / nesting levels on a 2 MiB stack; '
                 'a case is non-trivial when the input could be passed to the Rust function at all (a text argument that is not UTF-8 cannot); distinct = distinct protocol lines')
     res.exhaustive = None
